@@ -14,7 +14,7 @@ fn vk_er_ops<const P: usize, const L: usize>() {
 #[kani::proof] #[kani::unwind(6)] fn vk_er_ops_p1() { vk_er_ops::<1, 4>() }
 // @harness vk_er_ops_p2 props=C12 kind=bounded(period=2,ops=6) tier=quick
 #[kani::proof] #[kani::unwind(8)] fn vk_er_ops_p2() { vk_er_ops::<2, 6>() }
-// @harness vk_er_ops_p3 props=C12 kind=bounded(period=3,ops=8) tier=thorough
+// @harness vk_er_ops_p3 props=C12 kind=bounded(period=3,ops=8) tier=quick
 #[kani::proof] #[kani::unwind(10)] fn vk_er_ops_p3() { vk_er_ops::<3, 8>() }
 
 // reset after any K finite inputs, then one more input: same output bits and same cursor state as a fresh instance
@@ -30,7 +30,7 @@ fn vk_er_reset_fresh<const P: usize, const K: usize>() {
 }
 // @harness vk_er_reset_fresh_p2 props=C04 kind=bounded(period=2,history=5) tier=quick
 #[kani::proof] #[kani::unwind(8)] fn vk_er_reset_fresh_p2() { vk_er_reset_fresh::<2, 5>() }
-// @harness vk_er_reset_fresh_p3 props=C04 kind=bounded(period=3,history=7) tier=thorough
+// @harness vk_er_reset_fresh_p3 props=C04 kind=bounded(period=3,history=7) tier=quick
 #[kani::proof] #[kani::unwind(10)] fn vk_er_reset_fresh_p3() { vk_er_reset_fresh::<3, 7>() }
 
 // derived Clone is a deep copy (any field values): fieldwise bit-equal, distinct buffer allocation, and feeding the clone
